@@ -83,6 +83,10 @@ def propagate_fft(wavefront, pixelscale, shape=None, oversample=2,
         field = lentil.pad(wavefront.field, fft_shape)
         field = _fft2(field)
     
+    # keep only the part of the transformed grid that the output Wavefront covers:
+    # a Field larger than Wavefront.shape is cropped by Wavefront.field but not by
+    # propagate_dft or by the scratch path of a following propagate_fft
+    field = lentil.pad(field, shape_out)
     out.data.append(Field(data=field, pixelscale=pixelscale/oversample))
 
     return out
